@@ -626,6 +626,71 @@ def _sup_names(items):
             out += _sup_names(it[3])
     return out
 
+COLLIDING_PAIRS = [('IOBusy', 'IoBusy'), ('Ab', 'AB'), ('HTTPServer', 'HttpServer'), ('T', 't'), ('OK', 'Ok'), ('Q2', 'q2')]
+
+def collide_variant(d, rng):
+    """d with two of its states renamed to a pair of distinct identifiers that have the same snake_case
+    form (the derived field / accessor names coincide); exactly one of the two carries data, so the
+    definition still compiles in typestate mode. None when d has fewer than two state names."""
+    si = _states_item(d)
+    if si is None:
+        return None
+    leaves = _leaf_names(d[si][1])
+    sups = _sup_names(d[si][1])
+    if len(leaves) < 2:
+        return None
+    a, b = rng.choice(COLLIDING_PAIRS)
+    if rng.random() < 0.5:
+        a, b = b, a
+    if a in leaves + sups or b in leaves + sups:
+        return None
+    x = rng.choice(leaves)
+    y = rng.choice([n for n in leaves if n != x] + sups)
+    m = {x: a, y: b}
+    def r(n):
+        return m.get(n, n)
+    def rb(items):
+        out = []
+        for it in items:
+            if it[0] in ('leaf', 'state'):
+                data = it[2]
+                if it[1] == x:
+                    data = ['u32']
+                elif it[1] == y:
+                    data = None
+                out.append((it[0], r(it[1]), data))
+            elif it[0] == 'sup':
+                data = it[2]
+                if it[1] == y:
+                    data = None
+                out.append(('sup', r(it[1]), data, rb(it[3])))
+            elif it[0] == 'initial':
+                out.append(('initial', r(it[1])))
+            else:
+                out.append(it)
+        return out
+    nd = []
+    for it in d:
+        if it[0] == 'initial':
+            nd.append(('initial', r(it[1])))
+        elif it[0] == 'states':
+            nd.append(('states', rb(it[1])) + tuple(it[2:]))
+        elif it[0] == 'events':
+            blocks = []
+            for (en, items) in it[1]:
+                ni = []
+                for e in items:
+                    if e[0] == 'transition':
+                        ni.append(('transition', [(('from', [r(z) for z in t[1]]) + tuple(t[2:])) if t[0] == 'from' else
+                                                  (('to', r(t[1])) if t[0] == 'to' else t) for t in e[1]]))
+                    else:
+                        ni.append(e)
+                blocks.append((en, ni))
+            nd.append(('events', blocks) + tuple(it[2:]))
+        else:
+            nd.append(it)
+    return nd
+
 def mutations(d, rng):
     """all single rule-violating edits of d that this generator knows, as (rule, def)"""
     out = []
